@@ -767,8 +767,21 @@ static ares_bool_t ares_servers_remove_stale(ares_channel_t *channel,
 
 static void ares_servers_trim_single(ares_channel_t *channel)
 {
-  while (ares_slist_len(channel->servers) > 1) {
-    ares_slist_node_destroy(ares_slist_node_last(channel->servers));
+  /* Keep the first server of the configuration.  The list is sorted by
+   * failure count first: its head is the first configured server only as
+   * long as no server has failed. */
+  const ares_server_t *keep = ares_server_next_configured(channel, NULL);
+  ares_slist_node_t   *node = ares_slist_node_first(channel->servers);
+
+  while (node != NULL) {
+    if (ares_slist_node_val(node) != keep) {
+      /* Moves its queries to the remaining servers, which may re-sort them:
+       * start over like ares_servers_remove_stale() does */
+      ares_slist_node_destroy(node);
+      node = ares_slist_node_first(channel->servers);
+      continue;
+    }
+    node = ares_slist_node_next(node);
   }
 }
 
